@@ -1,6 +1,7 @@
 import Secp.Proofs.Ecdsa
 import Secp.Props.C03
 import Secp.Proofs.Ecdh
+import Secp.Proofs.Slices
 /-
   Props/C01 — ECDSA signing is valid, deterministic and standard-conformant.
   Model: `Secp.Model.signM` (sign with a given nonce), `signRFC6979M` (retry loop over the RFC 6979
@@ -55,5 +56,14 @@ theorem signRFC6979_eq_spec_unconditional (d : Nat) (h : Bytes) (hd : d < N) (fu
   signRFC6979_eq_spec Secp.Props.C03.pointSpec d h hd fuel iter (fun k hk0 hk => by
     obtain ⟨x, y, hxy, _⟩ := Secp.Proofs.Ecdh.pubkey_finite k hk0 hk
     rw [hxy]; exact Option.some_ne_none _)
+
+
+/-- Limb level of this property's own functions: the REGENERATED sliced field programs (tools/gotr pass T2s,
+    `Secp.Gen.Slices`) of the field arithmetic of `sign` (k·G to affine, x → scalar with overflow flag, parity of y) pass the abstract interpreter on every path — no magnitude overflow, every
+    comparison / parity test / serialisation reads a normalised value, every callee's precondition holds,
+    every returned key or point is normalised.  Together with C05 (kernels) and C16 (`absPath_sound`,
+    `contracts_justified`) this is what makes the value-level model above faithful to the limb code. -/
+theorem sign_field_arithmetic_exact :
+    Secp.Proofs.Slices.entriesOK ["github.com/ModChain/secp256k1.sign", "github.com/ModChain/secp256k1.fieldToModNScalar"] = true := by decide +kernel
 
 end Secp.Props.C01
